@@ -2,7 +2,7 @@
     the round trip through the library (the agreement of the decoder with serde_json's on every
     input is decided by correspondence; see DESIGN.md).  Statements only. *)
 From Coq Require Import ZArith.
-From JP Require Import Base F64 Value Serde Decode Proofs.SerdeProof Proofs.DecodeProof Proofs.DecodeMapProof.
+From JP Require Import Base F64 Value Serde Decode Proofs.SerdeProof Proofs.DecodeProof Proofs.DecodeMapProof Proofs.DecodeTypeProof.
 Open Scope Z_scope.
 
 (** Converting a typed value for searching ([ser_var]: the library's
@@ -52,6 +52,14 @@ Proof. vm_compute. repeat split; reflexivity. Qed.
 Theorem C14_value_survives : forall t x v, chk t x = true -> ser_var x = SOk v -> de t v = Some x.
 Proof. exact de_ser_round_trip. Qed.
 Print Assumptions C14_value_survives.
+
+(** Whatever the decoder accepts is a value of the requested type: the requested shape at every level of nesting
+    (variant names of the enum, field names of the struct in declaration order, one component per tuple position),
+    integers within the range of their width, keys of the requested key type; for every type description and every
+    library value (well-formed or not). *)
+Theorem C14_decoded_values_are_well_typed : forall t v x, de t v = Some x -> wt t x = true.
+Proof. exact de_well_typed. Qed.
+Print Assumptions C14_decoded_values_are_well_typed.
 
 (** Integer targets apply the range check of their width: no wrap-around, floats refused. *)
 Theorem C14_integer_targets_checked : forall lo hi v x, de (TInt lo hi) v = Some x ->
